@@ -47,7 +47,20 @@ SelectOK(e) == /\ e.fitsame /\ e.predictsame
                /\ \A v \in {e.preds[i] : i \in 1..Len(e.preds)} \cup {e.sel[i] : i \in 1..Len(e.sel)} :
                      CountV(e.sel, v) = Min2(CountV(e.preds, v), Max0(e.bs - Below(e.preds, v)))
 
+(* clip{cls, kinds, outs, inputsame}: the float32 clipping of the loss history by the XGBoost sampler, entry by entry:
+     kinds[i] in {"in", "over", "under"} (inside the float32 range / at or above its maximum / at or below its minimum);
+     outs[i]  in {"same", "top", "bottom", "other"} (bit-equal to the input / a finite value of the same sign just inside the limit)
+   entries inside the range come back unchanged, the others just inside their own limit, and the caller's array is left alone *)
+ClipOK(e) == /\ e.inputsame
+             /\ Len(e.kinds) = Len(e.outs)
+             /\ \A i \in 1..Len(e.kinds) :
+                   CASE e.kinds[i] = "in" -> e.outs[i] = "same"
+                     [] e.kinds[i] = "over" -> e.outs[i] = "top"
+                     [] e.kinds[i] = "under" -> e.outs[i] = "bottom"
+                     [] OTHER -> FALSE
+
 EvOK(e) == CASE e.e = "sample" -> Shape(e) /\ OnGridEv(e) /\ e.inbounds /\ Untouched(e)
+             [] e.e = "clip" -> ClipOK(e)
              [] e.e = "bestbatch" -> BestBatchOK(e)
              [] e.e = "select" -> SelectOK(e)
              [] OTHER -> FALSE
@@ -57,6 +70,7 @@ Why == IF ~More THEN "end"
               [] Ev.e = "sample" /\ ~OnGridEv(Ev) -> "offgrid"
               [] Ev.e = "sample" /\ ~Ev.inbounds -> "out-of-bounds"
               [] Ev.e = "sample" -> "history-modified"
+              [] Ev.e = "clip" -> "float32-clipping"
               [] Ev.e = "bestbatch" -> "bestbatch-descent"
               [] Ev.e = "select" /\ ~(Ev.fitsame /\ Ev.predictsame) -> "surrogate-inputs"
               [] Ev.e = "select" -> "surrogate-selection"
